@@ -33,19 +33,20 @@ def dependency_units(pid):
     switch = ('write-switch', lambda: c01.WriteSwitch())
     table = {
         'C01': [gendef, connect],
+        'C04': [wlock, wpkt],
         'C07': [wlock, wpkt, ('read-frame', lambda: c01.ReadFrame()), ('read-segmentation', lambda: c01.Segmentation())],
         'C05': [order, wlock, wpkt, frame, ('read-frame', lambda: c01.ReadFrame()), ('Position.send', lambda: c04.PositionSend()), ('Position.any-word', lambda: c04.PositionAnyWord()),
                 ('ChunkSectionPos', lambda: c04.SectionPos()), ('BlockRecord', lambda: c04.BlockRecord()),
                 ('flag-names', lambda: c20.Flags())],
         'C06': [order, ('context-holds-a-protocol-number', lambda: c09.InitVersions())],
         'C09': [life, connect, string, trail, wpkt],
-        'C10': [hsh, frame, string, trail, vread, gendef, switch],
+        'C10': [hsh, frame, string, trail, vread, gendef, switch, wpkt],
         'C11': [wpkt, life, order, connect, shape],
         'C12': [wpkt, gendef, vsend, switch],
         'C14': [life, connect, shape, wpkt, wlock],
         'C15': [shape, life, buf, connect, wpkt],
         'C16': [shape, wpkt, wlock],
-        'C18': [hsh, frame, gendef, vsend],
+        'C18': [hsh, frame, gendef, vsend, wpkt],
         'C17': [frame, gendef, vsend],
     }
     out = [_mk(pid, name, f) for name, f in table.get(pid, [])]
